@@ -194,6 +194,7 @@ type Knobs struct {
 	// header are raised to these values (as if a long history lay behind), so
 	// that row ids and LSNs cross 2^8, 2^16, 2^24, 2^32 boundaries within a short run
 	BiasKey       uint32 `json:"bias_key,omitempty"`
+	BiasOffset    uint64 `json:"bias_offset,omitempty"` // allocation frontier raised after CREATE DATABASE (sparse file): page offsets cross 2^24 in short runs
 	BiasLSN       uint64 `json:"bias_lsn,omitempty"`    // C15 with ticks withheld: only the cache monitor and O-live are evaluated
 	CheckEvery    int    `json:"check_every,omitempty"` // full contents check every k statements (0/1 = every statement)
 	TreeEvery     int    `json:"tree_every,omitempty"`  // tree walk every k statements (0 = never)
